@@ -57,7 +57,7 @@ def make_case(cid, schema, doc, rng, options=None, fmt=None, corpus="clean", fea
     return case
 
 
-def resp_vectors(case, rng, n_payloads=8, n_corrupt_bases=0, other_variant=False):
+def resp_vectors(case, rng, n_payloads=8, n_corrupt_bases=0, other_variant=False, drop_deprecated=False):
     """conforming payloads (+ expected re-serialisation) and, for the first bases, every
     single-point corruption"""
     schema = Schema(case["schema_model"])
@@ -66,7 +66,7 @@ def resp_vectors(case, rng, n_payloads=8, n_corrupt_bases=0, other_variant=False
     vecs = []
     stats = {}
     for op in doc["operations"]:
-        pg = PayloadGen(ref, rng)
+        pg = PayloadGen(ref, rng, drop_deprecated=drop_deprecated)
         plans = []
         for i in range(n_payloads):
             force = {}
